@@ -61,7 +61,13 @@ class FlagSimpleOpWriteHandler(AbstractWriteHandler):
         if op.op_code.name == OPS_FLAG__CALC_BIT:
             self.decompiler.write_stmnt(f"{op.params[0]}[{op.params[1]}] = {op.params[2]};")
         elif op.op_code.name == OPS_FLAG__CALC_VALUE:
-            self.decompiler.write_stmnt(f"{op.params[0]} {SsbCalcOperator(op.params[1]).notation} {op.params[2]};")  # type: ignore
+            if op.params[1] == SsbCalcOperator.ASSIGN.value:
+                # `a = b;` would compile to flag_Set, not back to flag_CalcValue.
+                self.decompiler.write_stmnt(f'{OPS_FLAG__CALC_VALUE}({", ".join([str(x) for x in op.params])});')
+            else:
+                self.decompiler.write_stmnt(
+                    f"{op.params[0]} {SsbCalcOperator(op.params[1]).notation} {op.params[2]};"  # type: ignore
+                )
         elif op.op_code.name == OPS_FLAG__CALC_VARIABLE:
             self.decompiler.write_stmnt(
                 f"{op.params[0]} {SsbCalcOperator(op.params[1]).notation} value({op.params[2]});"  # type: ignore
